@@ -163,16 +163,30 @@ def anytrait_harness(ex):
             value = _I(0)
             tagged = _I(0, tag=True)
             w_ = _I
+            _u_ = _I(0, tag=True)     # a wildcard whose prefix starts with an underscore
 
         root = N(name="root")
+        # wildcard-governed names that already hold a value when the handler is registered
+        root.w_pre = 1
+        root._u_pre = 2
         expr = ["*", "+tag"][ex.choice("expr", 2)]
         events = []
         root.observe(lambda e: events.append((e.name, e.new)), expr)
         seq = []
         for step in range(3):
-            op = ex.choice("op%d" % step, 4)
+            op = ex.choice("op%d" % step, 7)
             events.clear()
-            if op == 0:
+            if op == 4:
+                root.w_pre += 1
+                want = [("w_pre", root.w_pre)] if expr == "*" else []
+            elif op == 5:
+                root._u_pre += 1
+                want = [("_u_pre", root._u_pre)]
+            elif op == 6:
+                name = "_u_%d" % step                     # first use of an underscore wildcard name
+                setattr(root, name, 3 + step)
+                want = [(name, 3 + step)]
+            elif op == 0:
                 root.value += 1
                 want = [("value", root.value)] if expr == "*" else []
             elif op == 1:
@@ -237,7 +251,7 @@ def obligations(tier, build):
             muts = ["append", "insert", "del", "setitem", "insert_dup", "imul", "clear", "child=", "read_default",
                     "slice_subset", "remove_first", "del_children"]
         elif first == "mapping":
-            muts = ["map_set", "map_del", "map_same", "append", "child=", "read_default", "del_mapping"]
+            muts = ["map_set", "map_del", "map_same", "map_twin", "append", "child=", "read_default", "del_mapping"]
         elif first == "anybox":
             muts = ["anybox=good", "anybox=broken", "anybox=None", "box_append", "box_append_alien", "read_default"]
         elif first == "anykids":
